@@ -980,16 +980,16 @@ impl Deref for OsIpcSharedMemory {
 
     #[inline]
     fn deref(&self) -> &[u8] {
-        #[cfg(ipc_channel_verif)]
-        crate::verif::emit(
-            "slice",
-            &[("addr", self.ptr as i64), ("len", self.length as i64)],
-        );
         if self.ptr.is_null() {
             // Zero-length regions are not mapped (see `map_file`);
             // a slice must not be built from a null pointer, whatever its length.
             return &[];
         }
+        #[cfg(ipc_channel_verif)]
+        crate::verif::emit(
+            "slice",
+            &[("addr", self.ptr as i64), ("len", self.length as i64)],
+        );
         unsafe { slice::from_raw_parts(self.ptr, self.length) }
     }
 }
